@@ -4,32 +4,40 @@ From PPV Require Import Base.QN C21.Model.
 Import ListNotations.
 Open Scope Q_scope.
 
-Ltac unf := unfold to_line, from_line, sq, q1e9, q1e6, q1e3, q100 in *; cbn [br_r br_x br_b br_g l_r l_x l_c l_g l_len l_par] in *; qnorm.
+Ltac unf := unfold to_line, from_line, from_line_old, sq, q1e9, q1e6, q1e3, q100 in *; cbn [br_r br_x br_b br_g l_r l_x l_c l_g l_len l_par] in *; qnorm.
 
 (* ---------------------------------------------------------------- lines *)
 Lemma ppc_line_roundtrip : forall pif S vn r,
   ~ pif == 0 -> ~ S == 0 -> ~ vn == 0 ->
   let r' := to_line pif S vn (from_line pif S vn r) in
+  br_r r' == br_r r /\ br_x r' == br_x r /\ br_b r' == br_b r /\ br_g r' == br_g r.
+Proof.
+  intros pif S vn r Hp HS Hv. unf. repeat split; field; repeat split; assumption.
+Qed.
+
+Lemma ppc_line_roundtrip_old : forall pif S vn r,
+  ~ pif == 0 -> ~ S == 0 -> ~ vn == 0 ->
+  let r' := to_line pif S vn (from_line_old pif S vn r) in
   br_r r' == br_r r /\ br_x r' == br_x r /\ br_b r' == br_b r /\ br_g r' == br_g r / 2.
 Proof.
   intros pif S vn r Hp HS Hv. unf. repeat split; field; repeat split; assumption.
 Qed.
 
-Lemma line_roundtrip_partial : forall pif S vn r,
+Lemma line_roundtrip_old_partial : forall pif S vn r,
   ~ pif == 0 -> ~ S == 0 -> ~ vn == 0 -> G21_line r = true ->
-  let r' := to_line pif S vn (from_line pif S vn r) in
+  let r' := to_line pif S vn (from_line_old pif S vn r) in
   br_r r' == br_r r /\ br_x r' == br_x r /\ br_b r' == br_b r /\ br_g r' == br_g r.
 Proof.
   intros pif S vn r Hp HS Hv G.
-  destruct (ppc_line_roundtrip pif S vn r Hp HS Hv) as (A & B & C & D).
+  destruct (ppc_line_roundtrip_old pif S vn r Hp HS Hv) as (A & B & C & D).
   cbv zeta. repeat split; try assumption.
   unfold G21_line in G. apply qeqb_eq in G. rewrite D, G. reflexivity.
 Qed.
 
 Definition wit_row : lrow := {| br_r := 1; br_x := 1; br_b := 0; br_g := 1 |}.
-Lemma line_roundtrip_refuted :
+Lemma line_roundtrip_old_refuted :
   exists pif S vn r, ~ pif == 0 /\ ~ S == 0 /\ ~ vn == 0 /\
-    ~ br_g (to_line pif S vn (from_line pif S vn r)) == br_g r.
+    ~ br_g (to_line pif S vn (from_line_old pif S vn r)) == br_g r.
 Proof.
   exists 1, 1, 1, wit_row. repeat split; intro H; vm_compute in H; discriminate H.
 Qed.
@@ -40,7 +48,7 @@ Lemma line_ohmic_equiv : forall pif S vn l,
   let l' := from_line pif S vn (to_line pif S vn l) in
   l_len l' == 1 /\ l_par l' == 1 /\
   l_r l' == l_r l * l_len l / l_par l /\ l_x l' == l_x l * l_len l / l_par l /\
-  l_c l' == l_c l * l_len l * l_par l /\ l_g l' == l_g l * l_len l * l_par l / 2.
+  l_c l' == l_c l * l_len l * l_par l /\ l_g l' == l_g l * l_len l * l_par l.
 Proof.
   intros pif S vn l Hp HS Hv Hpar. unf.
   repeat split; try reflexivity; field; repeat split; assumption.
@@ -238,15 +246,21 @@ Section TrafoRoundTrip.
   Qed.
 End TrafoRoundTrip.
 
-(* NaN rating (max_loading_percent NaN -> RATE_A NaN): the converted transformer has no impedance *)
-Lemma trafo_rate_nan_loses_impedance : forall S fvn tvn zk ym r x b g tap shift sq_vn sq_x sq_b,
-  let t := fst (from_trafo S fvn tvn zk ym r x b g tap shift None) in
-  tr_r (to_trafo S (t_vnh t) (t_vnl t) sq_vn sq_x sq_b t) = None /\
-  tr_x (to_trafo S (t_vnh t) (t_vnl t) sq_vn sq_x sq_b t) = None.
+(* NaN rating (max_loading_percent NaN -> RATE_A NaN): the repaired rule always yields a positive rating, the old one NaN *)
+Lemma sn_of_rate_total : forall rate, (match rate with Some r => 0 <= r | None => True end) ->
+  exists s, sn_of_rate rate = Some s /\ 0 < s.
 Proof.
-  intros. unfold t, from_trafo, to_trafo. cbn [fst fmap t_sn t_vk t_vkr].
-  destruct (tap_adjust _ _). cbn. split; reflexivity.
+  intros [r|] H; unfold sn_of_rate.
+  - destruct (isclose0 r) eqn:E.
+    + eexists; split; [reflexivity | unfold MAX_VAL; reflexivity].
+    + exists r. split; [reflexivity|].
+      unfold isclose0 in E. assert (~ qabs r <= 1 # 100000000) as N by (intro X; apply qleb_le in X; congruence).
+      unfold qabs in N. destruct (qltb r 0) eqn:A; [apply qltb_lt in A; lra|].
+      apply Qnot_le_lt in N. assert (0 < 1 # 100000000) by reflexivity. lra.
+  - eexists; split; [reflexivity | unfold MAX_VAL; reflexivity].
 Qed.
+Lemma sn_of_rate_old_nan : sn_of_rate_old None = None.
+Proof. reflexivity. Qed.
 
 (* ---------------------------------------------------------------- generators *)
 Fixpoint count_first (b : Z) (l : list Z) (fl : list bool) : nat :=
